@@ -187,7 +187,7 @@ fn cases(quick: bool) -> Vec<CaseC10> {
             }
         }
         // triples (strided), flat and nested
-        let stride = if quick { 37 } else { 5 };
+        let stride = if quick { 37 } else { 2 };
         let mut c = 0;
         for i in 0..bg.len() {
             for j in 0..bg.len() {
@@ -303,7 +303,7 @@ fn check(c: &CaseC10, index: usize, d: usize) -> (Vec<Violation>, u64, bool) {
 pub fn run(ctx: &mut Ctx) {
     let quick = ctx.quick();
     let d = if quick { 0 } else { 1 };
-    ctx.set("rule", json!("E3 metamorphic x E2: for 7 prefixes (none, FD domains, distinctfd over three variables, disequalities, a CLP(Z) constraint with a user-state update, an FD sum, a binding) and every ordered pair (and a stride of triples, flat and nested) of 24 branch goals, alone and followed by one of 4 shared continuations (a closure whose body projects x, a doubly delayed binding, domains + distinctfd over all three variables, a closure around a disjunction of a project and a disequality) that the states of both branches enter (bindings, disequalities, domain narrowing, FD propagators incl. distinctfd whose shared constraint object is updated on binding, CLP(Z), user-state updates through fngoal, nested conde, project, fail): the multiset of final states of `prefix, conde { A, B }` (reified query terms, reported disequalities, the per-branch user trail and the open-constraint counter of an instrumented User) equals the union of the branches run alone from the same prefix; the same comparison is repeated through the public iterator with the library's DefaultUser (its default hooks). distinct_nontrivial = cases with >= 2 combined answers."));
+    ctx.set("rule", json!("E3 metamorphic x E2: for 7 prefixes (none, FD domains, distinctfd over three variables, disequalities, a CLP(Z) constraint with a user-state update, an FD sum, a binding) and every ordered pair (and a stride of triples, flat and nested) of 26 branch goals (incl. two unifications that fail part-way, after a tentative binding), alone and followed by one of 4 shared continuations (a closure whose body projects x, a doubly delayed binding, domains + distinctfd over all three variables, a closure around a disjunction of a project and a disequality) that the states of both branches enter (bindings, disequalities, domain narrowing, FD propagators incl. distinctfd whose shared constraint object is updated on binding, CLP(Z), user-state updates through fngoal, nested conde, project, fail): the multiset of final states of `prefix, conde { A, B }` (reified query terms, reported disequalities, the per-branch user trail and the open-constraint counter of an instrumented User) equals the union of the branches run alone from the same prefix; the same comparison is repeated through the public iterator with the library's DefaultUser (its default hooks). distinct_nontrivial = cases with >= 2 combined answers."));
     ctx.set("deviation_bound", json!(d));
     let cs = cases(quick);
     let sel: Vec<usize> = match &ctx.replay {
